@@ -44,13 +44,13 @@ CHECKS.update({
         text="Along the path where no comparison succeeds the returned certificate is the identity; along the path where exactly the k-th comparison succeeds the returned table is the k-th visited table and the returned (perm, mask) maps the symbolic input to it by the statement's formula, perm a permutation and mask without bits above n - for every comparison index k (sampled for the longest walks in the quick tier), every n in range, both types. On tables with at most 8 symbolic bits the returned certificate, replayed by the statement's formula, yields the returned table for every choice.",
         note="Partial: n ranges as C04. Paths with several successful comparisons are covered by the last-success index only (decoder depends only on the final index). Trusted: " + TB),
     "C08": dict(cat="other", ref="3 C08", technique="abstract summary of Ord::cmp on symbolic tables (reversed word views, lexicographic); per-path word-level terms of the successor kernel; iterator typestate by abstract interpretation",
-        text="Ord::cmp of both types compares the two tables word for word, most significant word first, as unsigned integers (Lut: variable count first); PartialOrd forwards to it (a comparison written as control flow - compare a block, return on difference - is recognised and summarised the same way). The iterator hands out a copy of the current table, steps it by (w+1)&mask per word with carry into the next word exactly on wrap-around, clears its flag exactly when all words wrapped, and yields None afterwards with the flag still off on every path of that call (an exhausted iterator polled again stays exhausted); all_functions starts at zero.",
+        text="Ord::cmp of both types compares the two tables word for word, most significant word first, as unsigned integers (Lut: variable count first); PartialOrd forwards to it (a comparison written as control flow - compare a block, return on difference - is recognised and summarised the same way). The iterator hands out a copy of the current table, steps it by (w+1)&mask per word with carry into the next word exactly on wrap-around, clears its flag exactly when all words wrapped, and yields None afterwards with the flag still off on every path of that call (an exhausted iterator polled again stays exhausted); all_functions starts at zero. `==` is false for tables of different sizes whatever their blocks (the order never gives Equal there).",
         note="Not decided: the induction from the per-step facts to 'every function exactly once', transitivity of integer order, agreement with hex order (C09). Trusted: " + TB + "; multiword-increment lemma."),
     "C10": dict(cat="proof", ref="3 C10", technique="type-level facts (aliases, API parity) + differential abstract interpretation of Lut vs StaticLut methods on identical symbolic inputs (uninterpreted functions for unmodelled read-only kernels) + bitflow on conversions",
         text="All 13 aliases tie N to max(1,2^N/64) blocks and are exported; every public method/trait impl has its counterpart; for every common method, n and valid argument partition the abstract results of Lut and StaticLut on the same symbolic table are identical; TryFrom fails exactly on a different variable count and copies blocks verbatim, From copies verbatim, integer conversions map bit m to f(m) with matching widths. bdd_complexity: both types hand the same arguments to the counting kernel, and with the kernel interpreted on tables of 1-3 variables both return the same count for every choice of [f], [f,f], [f,!f], [f,g].",
         note="Trusted: " + TB + "; read-only kernels that are not modelled (formatting, BDD counting) are treated as uninterpreted functions of their abstract arguments. Compile-fail witnesses W2/W3 run in the thorough tier."),
     "C19": dict(cat="other", ref="3 C19", technique="bit-provenance by abstract interpretation: every result bit is traced to a distinct fresh generator bit or the constant 0; who-may-construct rule with a backward slice of the seed operand of every explicitly seeded generator (MIR def-use, statics named by the driver)",
-        text="In random() of both types every table bit below 2^n is a copy of a distinct bit of a fresh next_u64 draw from rand::thread_rng (one draw per word), every bit at or above 2^n is constant 0, the crate has no static state (both build configurations), and the function disappears without the rand feature (thorough). Histories: random() is called repeatedly on one abstract state (thread_local storage is part of it) and no draw may hand out a generator bit an earlier draw of the history handed out. Any explicitly seeded generator (seed_from_u64/from_seed/..::new) built per call or per thread whose seed derives only from constants and write-once statics is a violation (same stream for every call / thread).",
+        text="In random() of both types every table bit below 2^n is a copy of a distinct bit of a fresh next_u64 draw from rand::thread_rng (one draw per word), every bit at or above 2^n is constant 0, the crate has no static state (both build configurations), and the function disappears without the rand feature (thorough). Threads: no body random() reaches updates a static atomic by load .. store (a lost-update race hands two threads the same words). Histories: random() is called repeatedly on one abstract state (thread_local storage is part of it) and no draw may hand out a generator bit an earlier draw of the history handed out. Any explicitly seeded generator (seed_from_u64/from_seed/..::new) built per call or per thread whose seed derives only from constants and write-once statics is a violation (same stream for every call / thread).",
         note="Not decided: statistical quality/independence of rand's generator (trusted dependency)."),
 })
 
